@@ -349,6 +349,10 @@ C16_SCENARIOS = [
     scn("four-processes+stat", ["A"], [E("A", "a"), E("A", "b"), E("A", "c"), S("A")], init="header", workers="processes"),
     # the environment in which a row reaches the file in two pieces (a long row through a buffered
     # writer): statistics built in between must still reflect only complete rows
+    # subject names that are prefixes / suffixes / substrings of one another, the longer one claimed first:
+    # a name is claimed or finished only if THAT name is in the list
+    scn("affix-names", ["A"], [E("A", "s10"), E("A", "s1"), E("A", "0"), E("A", "1")]),
+    scn("affix-names-processes", ["A"], [E("A", "case21"), E("A", "21"), E("A", "case2")], workers="processes"),
     scn("split+stat", ["A"], [E("A", "a"), E("A", "b"), S("A"), S("A")], split_writes=True),
     scn("split-continue+stat", ["A"], [E("A", "a"), S("A"), E("A", "b")], init="rows", prior=["z"], split_writes=True),
 ]
@@ -569,6 +573,9 @@ C17_SCENARIOS = [
     scn("three-noexit", ["A"], [E("A", "a"), E("A", "b"), E("A", "c")], init="absent", normal_exit=False),
     # the calls of a session run in forked worker processes; the kill takes the whole process group
     scn("two-header-processes", ["A"], [E("A", "a"), E("A", "b"), E("A", "a")], init="header", workers="processes"),
+    # names that are prefixes / suffixes / substrings of a finished or claimed one
+    scn("affix-rows", ["A"], [E("A", "s1"), E("A", "0"), E("A", "s10")], init="rows", prior=["s10"]),
+    scn("affix-absent", ["A"], [E("A", "case21"), E("A", "case2"), E("A", "21")], init="absent"),
 ]
 # beyond the listed properties: an output file with another configuration's header must be refused untouched
 FOREIGN_SCENARIO = scn("foreign-header", ["A"], [E("A", "a"), E("A", "b")], init="foreign", prior=["q"])
